@@ -121,7 +121,7 @@ def generate(seed, tier):
     for _ in range(rng.randint(8, 45)):
         k = rng.choice(kinds)
         if k == "gen":
-            ops.append({"op": "gen", "k": _k(rng, order), "pos": rng.random() < 0.25})
+            ops.append({"op": "gen", "k": _k(rng, order), "pos": rng.random() < 0.25, "scrib": rng.random() < 0.3})
         elif k == "peek":
             ops.append({"op": "peek", "k": rng.randint(1, 200)})
         elif k == "open":
@@ -264,6 +264,11 @@ class Consumer:
                                          f"{self.ref.state:#x} after {k} bits", "state/value")
         self.state = st
         self.buffer.append(bits.copy())
+        if op.get("scrib") and bits.flags.writeable:
+            # the caller owns the returned sequence: e.g. error injection in place.  A later identical request
+            # (after a crash-restart) must not see it
+            bits[:] = 1 - bits
+            self.rec.fault("scribble_result")
         self.splits.append(k)
         self.first_call_pending = False
         self.rec.ok_ops += 1
@@ -284,6 +289,14 @@ class Consumer:
         if not np.array_equal(bits, exp):
             raise Violation("C04/stream", f"{what}: {k} peeked bits differ from the reference at bit "
                                           f"{int(np.argmax(bits != exp))}", "stream/peek")
+        if k % 2 and bits.flags.writeable:
+            keep = bits.copy()
+            bits[:] = 1 - bits
+            out2, _ = self._call(order=self.order, len=k, seed=self._seed_arg())
+            if not np.array_equal(out2.data, keep):
+                raise Violation("C04/stream", f"{what}: an identical request returns different bits after the caller "
+                                              f"wrote into the previously returned sequence", "stream/peek-again")
+            bits = keep
         self.rec.ok_ops += 1
         self.rec.sig(self.order, "peek", _kclass(k, self.order))
         return core.array_digest(bits)[:10]
